@@ -65,6 +65,10 @@ func (c *ContentTypeMismatchError) Error() string {
 	return fmt.Sprintf("content type mismatch: got %q, want %q", c.Got, c.Want)
 }
 
+// maxPrealloc is the largest message size for which a receive buffer is
+// allocated before the message body has been read.
+const maxPrealloc = 1 << 20
+
 // An hdr implements Channel. Messages sent on a hdr channel are framed as a
 // header/body transaction, similar to HTTP.
 type hdr struct {
@@ -141,6 +145,19 @@ func (h *hdr) Recv() ([]byte, error) {
 	// single read to the underlying source.
 	data := h.rbuf
 	if len(data) < size || len(data) > (1<<20) && size < len(data)/4 {
+		if size > maxPrealloc {
+			// Do not trust a large declared size for allocation: a bogus length
+			// must be an error, not a crash. Grow the buffer as the data arrive.
+			var buf bytes.Buffer
+			if nr, err := io.CopyN(&buf, h.rd, int64(size)); err != nil {
+				if err == io.EOF && nr > 0 {
+					err = io.ErrUnexpectedEOF
+				}
+				return nil, err
+			}
+			h.rbuf = buf.Bytes()
+			return h.rbuf[:size], contentErr
+		}
 		data = make([]byte, size*2)
 		h.rbuf = data
 	}
